@@ -83,7 +83,7 @@ class Job:
                  kf=(), symbolic=(), bounds="", export_local=True,
                  model=None, src_defines=None, leak=False, layer="l0",
                  object_bits=None, fsa=None, gen_body=None, common_fp=True,
-                 native=None, extra_harness=()):
+                 native=None, extra_harness=(), export_extra=()):
         self.name = name
         self.harness = harness            # relative to /verif/harness
         self.sources = list(sources)      # relative to /repo
@@ -112,6 +112,10 @@ class Job:
         self.common_fp = common_fp
         self.native = native              # dict describing native replay build, or None
         self.extra_harness = list(extra_harness)
+        # --export-file-local-symbols is applied to Lib/core/* (their statics are unique) and to the sources
+        # named here; two struct sources with equally named statics (remove_node in list.c and bst.c) cannot
+        # both be exported in one link
+        self.export_extra = list(export_extra)
 
 
 # ---------------------------------------------------------------------------
@@ -216,7 +220,9 @@ def build_job(work, job, variant_defs, tag):
     """returns path of the final goto binary"""
     jd = os.path.join(work, "jobs", re.sub(r"[^A-Za-z0-9_.-]", "_", job.name) + "." + tag)
     os.makedirs(jd, exist_ok=True)
-    objs = [compile_repo_source(work, s, job.src_defines, job.export_local) for s in job.sources]
+    objs = [compile_repo_source(work, s, job.src_defines,
+                                job.export_local and (s.startswith("Lib/core/") or s in job.export_extra))
+            for s in job.sources]
     # harness (+ model)
     hdefs = dict(job.defines)
     hdefs.update(variant_defs)
@@ -244,21 +250,25 @@ def build_job(work, job, variant_defs, tag):
             raise BuildError("goto-cc failed on harness %s:\n%s" % (hs, e.decode(errors="replace")[-3000:]))
         hobjs.append(out)
     cur = None
-    # remove bodies from repo objects before linking (so the harness definition wins)
-    if job.remove:
-        nobjs = []
-        for ob in objs:
-            out = os.path.join(jd, os.path.basename(ob) + ".rm.gb")
+    # link the repo objects first, cut the stubbed bodies out of that binary, then link the harness (whose
+    # definitions of the cut symbols win).  (goto-instrument on single objects loses the file-local renaming.)
+    linked = os.path.join(jd, "linked.gb")
+    if objs:
+        repo_gb = os.path.join(jd, "repo.gb")
+        rc, o, e, to, _ = run(["goto-cc"] + objs + ["-o", repo_gb], timeout=300)
+        if rc != 0:
+            raise BuildError("link of repo objects failed:\n" + e.decode(errors="replace")[-3000:])
+        if job.remove:
+            out = os.path.join(jd, "repo.rm.gb")
             cmd = ["goto-instrument"]
             for r in job.remove:
                 cmd += ["--remove-function-body", r]
-            cmd += [ob, out]
+            cmd += [repo_gb, out]
             rc, o, e, to, _ = run(cmd, timeout=120)
             if rc != 0:
                 raise BuildError("remove-function-body failed: " + e.decode(errors="replace")[-2000:])
-            nobjs.append(out)
-        objs = nobjs
-    linked = os.path.join(jd, "linked.gb")
+            repo_gb = out
+        objs = [repo_gb]
     rc, o, e, to, _ = run(["goto-cc"] + hobjs + objs + ["-o", linked], timeout=300)
     if rc != 0:
         raise BuildError("link failed:\n" + e.decode(errors="replace")[-3000:])
@@ -300,7 +310,7 @@ def build_job(work, job, variant_defs, tag):
 
 
 def cbmc_cmd(job, gb, extra=()):
-    cmd = ["cbmc", gb, "--function", job.entry, "--json-ui", "--verbosity", "8"]
+    cmd = ["cbmc", gb, "--function", job.entry, "--json-ui", "--verbosity", "9"]
     flags = [f for f in DEFAULT_FLAGS if f not in job.noflags] + job.flags
     cmd += flags
     cmd += ["--unwind", str(job.unwind)]
@@ -342,6 +352,7 @@ def parse_cbmc(out):
     vccs = None
     queries = 0
     maxvars = maxclauses = 0
+    steps = None
     for e in data:
         if not isinstance(e, dict):
             continue
@@ -362,6 +373,9 @@ def parse_cbmc(out):
             m = re.match(r"Generated (\d+) VCC\(s\), (\d+) remaining", mt)
             if m:
                 vccs = (int(m.group(1)), int(m.group(2)))
+            m = re.match(r"size of program expression: (\d+) steps", mt)
+            if m:
+                steps = int(m.group(1))
             m = re.match(r"(\d+) variables, (\d+) clauses", mt)
             if m:
                 queries += 1
@@ -369,7 +383,7 @@ def parse_cbmc(out):
                 maxclauses = max(maxclauses, int(m.group(2)))
     return {"ok": status is not None, "status": status, "results": results, "msgs": msgs,
             "solver_s": solver_s, "symex_s": symex_s, "vccs": vccs, "queries": queries,
-            "sat_vars": maxvars, "sat_clauses": maxclauses}
+            "sat_vars": maxvars, "sat_clauses": maxclauses, "steps": steps}
 
 
 def classify(res):
@@ -461,7 +475,8 @@ def run_variant(work, job, variant_defs, tag, want_trace_for=None):
     c = classify(res)
     rec.update(vcs=c["n_total"], vcs_ok=c["n_ok"], solver_s=round(res["solver_s"], 2),
                symex_s=round(res["symex_s"], 2), witnesses=c["witness_ok"], vccs=res.get("vccs"),
-               solver_queries=res.get("queries"), sat_vars=res.get("sat_vars"), sat_clauses=res.get("sat_clauses"))
+               solver_queries=res.get("queries"), sat_vars=res.get("sat_vars"), sat_clauses=res.get("sat_clauses"),
+               steps=res.get("steps"))
     if res["msgs"] and not res["results"]:
         rec.update(verdict="error", error="; ".join(res["msgs"])[:2000], wall_s=time.time() - t0)
         return rec
@@ -576,7 +591,8 @@ def native_replay(work, job, rec, fail):
         cmd.append(os.path.join(VERIF, "model", job.model))
     for s in job.native.get("sources", job.sources):
         cmd.append(os.path.join(REPO, s))
-    cmd += ["-o", exe, "-lpthread", "-ldl"]
+    # units outside the harness' scope stay unresolved (calling one jumps to 0 and is classified below)
+    cmd += ["-o", exe, "-lpthread", "-ldl", "-no-pie", "-Wl,--unresolved-symbols=ignore-all"]
     rc, o, e, to, _ = run(cmd, timeout=180)
     if rc != 0:
         return "unsupported", "native build failed: " + e.decode(errors="replace")[-1500:]
@@ -585,6 +601,8 @@ def native_replay(work, job, rec, fail):
     text = (o + e).decode(errors="replace")[-3000:]
     if "VF-ASSUME-FAILED" in text:
         return "not-reproduced", text
+    if re.search(r"\(pc 0x0+ ", text):
+        return "unsupported", "native run called a function outside the linked units: " + text
     if "VF-FAIL" in text or "ERROR: AddressSanitizer" in text or "runtime error" in text or rc < 0:
         return "reproduced", text
     return "not-reproduced", text
@@ -645,9 +663,9 @@ def main(argv=None):
                 for r in recs:
                     r["_job"] = j
                     all_recs.append(r)
-                    print("[%s] %-44s %-5s %-8s vcs=%s solver=%ss wall=%.1fs %s" % (
-                        prop, j.name, r.get("variant"), r.get("verdict"), r.get("vcs", "-"),
-                        r.get("solver_s", "-"), r.get("wall_s", 0.0),
+                    print("[%s] %-44s %-5s %-8s vcs=%s steps=%s symex=%ss solver=%ss wall=%.1fs %s" % (
+                        prop, j.name, r.get("variant"), r.get("verdict"), r.get("vcs", "-"), r.get("steps", "-"),
+                        r.get("symex_s", "-"), r.get("solver_s", "-"), r.get("wall_s", 0.0),
                         (r.get("error") or "")[:300].replace("\n", " | ")), flush=True)
 
         # ---- verdict -------------------------------------------------------
@@ -725,7 +743,7 @@ def write_evidence(prop, tier, seed, spec, jobs, recs, violations, inconclusive,
             "vcs": r.get("vcs"), "vcs_discharged": r.get("vcs_ok"), "witnesses_reached": r.get("witnesses"),
             "symex_s": r.get("symex_s"), "solver_s": r.get("solver_s"), "wall_s": round(r.get("wall_s", 0), 2),
             "vccs_generated_remaining": r.get("vccs"), "solver_queries": r.get("solver_queries"),
-            "sat_vars": r.get("sat_vars"), "sat_clauses": r.get("sat_clauses"),
+            "sat_vars": r.get("sat_vars"), "sat_clauses": r.get("sat_clauses"), "program_steps": r.get("steps"),
             "backend": j.backend, "fails": r.get("fails"), "replays": r.get("replays"),
             "cbmc_cmd": r.get("cbmc_cmd"), "note": r.get("note"),
         })
